@@ -841,8 +841,8 @@ func nameServices(from reflect.Value, to reflect.Value) (interface{}, error) {
 }
 
 func secretConfigDecoderHook(from, to reflect.Type, data interface{}) (interface{}, error) {
-	// Check if the input is a map and we're decoding into a SecretConfig
-	if from.Kind() == reflect.Map && to == reflect.TypeOf(types.SecretConfig{}) {
+	// Check if the input is a map and we're decoding into a SecretConfig or a ConfigObjConfig
+	if from.Kind() == reflect.Map && (to == reflect.TypeOf(types.SecretConfig{}) || to == reflect.TypeOf(types.ConfigObjConfig{})) {
 		if v, ok := data.(map[string]interface{}); ok {
 			if ext, ok := v[consts.Extensions].(map[string]interface{}); ok {
 				if val, ok := ext[types.SecretConfigXValue].(string); ok {
